@@ -257,4 +257,27 @@ theorem dir_wrap_then_unwrap (P : Prims) (name : String) (fuel fuel' : Nat) (jwe
   · refine ⟨.obj (updateKV c k), by simp [unw, hf, hne], ?_⟩
     simp [get?, lookup_updateKV c k "k" hnd, hk]
 
+/-- **A direct key joins only its own content key** (after fix F32): once an earlier recipient has fixed the content
+    key, adding a `dir` recipient succeeds only if its key IS that content key — so every `dir` recipient of a
+    produced JWE can decrypt it, in whatever position it was added -/
+theorem dir_joins_only_same_key (P : Prims) (name : String) (fuel : Nat) (jwe jwk cek : Json) (ck : Json)
+    (rkvs : List (String × Json)) (rnd : Bs) (out : Json × Json)
+    (hf : wrapFamily name = some .dir) (hc : cek.get? "k" = some ck)
+    (h : wrp P (fuel + 1) name jwe (.obj rkvs) jwk cek rnd = some out) :
+    ∃ jk, jwk.get? "k" = some jk ∧ Json.equal ck jk = true ∧ out.2 = cek := by
+  simp only [wrp, hf, hc, Option.bind_eq_some_iff] at h
+  obtain ⟨c', hc', h⟩ := h
+  cases hj : jwk.get? "k" with
+  | none => simp [hj] at hc'
+  | some jk =>
+    simp only [hj] at hc'
+    split at hc'
+    · rename_i heq
+      simp only [Option.some.injEq] at hc'
+      subst hc'
+      simp only [Option.map_eq_some_iff] at h
+      obtain ⟨j, _, rfl⟩ := h
+      exact ⟨jk, rfl, heq, rfl⟩
+    · simp at hc'
+
 end Jose.Props.C04
